@@ -202,20 +202,48 @@ def search(acc: Acc, tier, shard, nshards):
             return [Discrepancy(f"load:{type(e).__name__}", f"generated document rejected: {e!s:.150}", {"text": text})]
         tags = special_tags(d)
         out = []
+        seq_opts = []
         for _ in range(cfg["sets_per_doc"]):
             o = options.draw(ch, quotes=quotes, linebreak_only=True)
+            seq_opts.append(o)
             acc.case([doc, optkey(o)], nontrivial(tags, o), sample={"text": text[:600], "options": o} if len(text) > 200 else None)
             acc.cls("opt:" + feat(o))
             acc.cls("opt:indent%d" % o["indent"])
             out += run_case(d, o, {"text": text, "options": o})
         for t in tags:
             acc.cls("doc:" + t)
+        if not out and ch.chance(1, 3):
+            # the module-level dumps called several times in one process with changing options: every output must
+            # be the one a fresh PrettyPrinter gives for those options (the layout contract is checked on that one)
+            seq = seq_opts[:]
+            acc.cls("public_dumps_sequence")
+            acc.case(["public_sequence", doc, [optkey(o) for o in seq]], len(seq) >= 2)
+            out += public_sequence(d, seq, {"text": text, "options_sequence": seq})
         return out
 
     hyp_search(acc, ID, "documents", shard, n, body, tier)
 
 
+def public_sequence(d, seq, case):
+    import mappyfile
+
+    W = env.Workers.get()
+    for i, o in enumerate(seq):
+        try:
+            pub = mappyfile.dumps(copy.deepcopy(d), **o)
+        except Exception as e:
+            return [Discrepancy(f"public_dumps:{type(e).__name__}", f"mappyfile.dumps raised {type(e).__name__}: {e!s:.100} with {o}", case)]
+        ref = W.PrettyPrinter(**o).pprint(copy.deepcopy(d))
+        if pub != ref:
+            k = next((j for j, (a, b) in enumerate(zip(pub, ref)) if a != b), min(len(pub), len(ref)))
+            return [Discrepancy(f"public_sequence:{feat(o)}", f"call {i + 1} of a sequence of mappyfile.dumps calls ({[feat(x) for x in seq[:i + 1]]}) wrote {pub[max(0, k - 30):k + 30]!r} "
+                                f"where a fresh PrettyPrinter with the same options writes {ref[max(0, k - 30):k + 30]!r}", case)]
+    return []
+
+
 def replay(case):
     W = env.Workers.get()
     text = corpus.read(os.path.join(env.REPO, case["file"])) if "file" in case else case["text"]
+    if "options_sequence" in case:
+        return public_sequence(W.loads(text), case["options_sequence"], case)
     return run_case(W.loads(text), case["options"], case)
